@@ -921,13 +921,16 @@ def rulesOK (o : Opts) (d : Doc) : Bool := (violations d).all (fun v => !enabled
 
 /-- containment edges named by the property: "reachable through components, path items, operations,
 parameters, request bodies, responses, headers, media types and schemas" (plus security schemes and
-servers, whose well-formedness the property lists) -/
+servers, whose well-formedness the property lists: "an ill-formed security scheme or server is rejected, at
+whichever place reachable through … path items, operations …" — hence the `servers` of a path item and of an
+operation) -/
 def specEdges : List (Kind × String) := [
   (.root, "components"), (.root, "paths"), (.root, "info"), (.root, "servers"),
   (.components, "schemas"), (.components, "parameters"), (.components, "requestBodies"),
   (.components, "responses"), (.components, "headers"), (.components, "securitySchemes"),
   (.paths, "pathItems"), (.pathItem, "operations"), (.pathItem, "parameters"),
   (.operation, "parameters"), (.operation, "requestBody"), (.operation, "responses"),
+  (.pathItem, "servers"), (.operation, "servers"),
   (.parameters, "items"), (.parameterRef, "value"), (.parameter, "schema"), (.parameter, "content"),
   (.requestBodyRef, "value"), (.requestBody, "content"),
   (.responses, "responses"), (.responseRef, "value"), (.response, "content"), (.response, "headers"),
@@ -979,9 +982,11 @@ def exclEncNode (T : Table) (o : Opts) (d : Doc) : Bool :=
 def uncovered (T : Table) : List (Kind × String) :=
   specEdges.filter (fun e => !((rowsFor T.edges e.1 e.2).contains []))
 
-/-- the containment edges along which the code is known not to report violations: the headers of an encoding
-object (errors dropped), and #28: `xml`, `discriminator` objects are never validated -/
-def knownUncovered : List (Kind × String) := [(.encoding, "headers"), (.schema, "xml"), (.schema, "discriminator")]
+/-- the containment edges along which the code is known not to report violations: the `servers` of a path item
+and of an operation (never validated), the headers of an encoding object (errors dropped), and #28: `xml`,
+`discriminator` objects are never validated -/
+def knownUncovered : List (Kind × String) :=
+  [(.pathItem, "servers"), (.operation, "servers"), (.encoding, "headers"), (.schema, "xml"), (.schema, "discriminator")]
 
 /-- a violation sits below a containment edge in `unc` -/
 def exclBelow (unc : List (Kind × String)) (o : Opts) (d : Doc) : Bool :=
